@@ -174,8 +174,14 @@ class RealNode:
             return repr(e)
 
     # ---- stimuli
+    # the timestamp in a message header is the *sender's* clock: an input like any other (skewed, far off, zero)
+    SENDER_SKEWS = [0, 3600, -3600, 31, 86400 * 400, 0, -31, None]
+
     def header(self, in_response_to=0, msg_id=7):
-        return MessageHeader(CLOCK[0], msg_id, in_response_to, 12345)
+        self._headers = getattr(self, "_headers", 0) + 1
+        skew = self.SENDER_SKEWS[self._headers % len(self.SENDER_SKEWS)]
+        ts = 0 if skew is None else min(max(CLOCK[0] + skew, 0), 2 ** 32 - 1)
+        return MessageHeader(ts, msg_id, in_response_to, 12345)
 
     def deliver_block(self, c, block, in_response_to=0):
         """direct call of the handler (the catch-all is exercised by deliver_bytes)"""
